@@ -285,6 +285,7 @@ type c10Site struct {
 	path   string
 	write  bool
 	atomic bool
+	addrOf *ast.UnaryExpr // the access is `&x.f` (not handed to an atomic primitive): see pointerArgs (c10z.go)
 }
 
 type c10Val struct {
@@ -513,6 +514,7 @@ func c10Build(c *Ctx) *c10Eng {
 			}
 		}
 	}
+	e.pointerArgs()
 	for _, f := range e.fns {
 		e.dataflow(f)
 	}
@@ -1448,6 +1450,7 @@ func (e *c10Eng) accessSite(f *c10Fn, loc Loc, sel *ast.SelectorExpr, par map[as
 	case *ast.UnaryExpr:
 		if t.Op == token.AND {
 			site.write = true // address taken: conservative
+			site.addrOf = t
 			if call, ok := par[t].(*ast.CallExpr); ok {
 				if fn := calleeOf(info, call); fn != nil {
 					if fn.Pkg() != nil && fn.Pkg().Path() == "sync/atomic" {
@@ -3141,7 +3144,8 @@ func (e *c10Eng) ruleExit() {
 			continue
 		}
 		f := cx.root
-		loops := e.infiniteLoops(f)
+		// the service loops of the goroutine: those of the root and of the phases it is split into (c10z.go)
+		loops := e.goroutineLoops(f)
 		if len(loops) == 0 {
 			oneShot := newC10Agg("C10.d")
 			for _, s := range f.sites {
@@ -3171,7 +3175,8 @@ func (e *c10Eng) ruleExit() {
 			oneShot.flush(c)
 			continue
 		}
-		for li, loop := range loops {
+		for li, lr := range loops {
+			f, loop := lr.fn, lr.loop
 			key := fmt.Sprintf("%s/loop#%d has a quit arm", cx.name, li+1)
 			if rs, ok := loop.(*ast.RangeStmt); ok {
 				ch, _ := e.chanID(f, rs.X)
@@ -3242,13 +3247,9 @@ func (e *c10Eng) ruleWaitFor() {
 		if cx.kind != "go" {
 			continue
 		}
-		loops := e.infiniteLoops(cx.root)
-		if len(loops) == 0 {
-			continue
-		}
-		last := loops[len(loops)-1].End()
-		for _, s := range cx.root.sites {
-			if s.kind == "send" && s.chKind == "field" && s.node.Pos() > last && s.inSel == nil {
+		// (sends after the last service loop of the goroutine, also when loop and signal are in phases the root calls)
+		for _, s := range e.completionSends(cx.root) {
+			if s.chKind == "field" && s.inSel == nil {
 				dup := false
 				for _, j := range joins {
 					if j.ch == s.ch && j.ctx == i {
